@@ -10,6 +10,48 @@ NOTES = ("Runtime monitoring family. ./check <id> quick|thorough rebuilds the ha
          "or too few observations), never a verdict.")
 NOT_APPLICABLE = {}
 CHECKS = {
+    "C03": {
+        "level": "exploration",
+        "technique": "relation monitor over generated message pairs (recover_id_secret == secret, nullifier relations) with reference-Poseidon cross-check; panics caught",
+        "text": "Thousands of message pairs built from zerokit's own proof-value functions (boundary and random secrets / external nullifiers, all message-id classes, signal pairs incl. empty, degenerate and forged equal-x pairs) plus a few full generate_rln_proof pairs are fed to recover_id_secret; the oracle checks secret equality, nullifier equalities/inequalities against H(H(s,e,m)) from the reference Poseidon, and crash-freedom on degenerate pairs. Sampled input space.",
+        "note": "Trusted: reference Poseidon (anchored on circomlib vectors), Keccak collision resistance.",
+    },
+    "C04": {
+        "level": "exploration",
+        "technique": "four-way differential monitor: independent formulas (reference Poseidon) vs proof_values_from_witness vs graph witness outputs vs rln.wasm outputs",
+        "text": "For generated witnesses accepted by the reference generator (boundary field values in each input, every limit/id class, 48 direction-bit patterns x 4 path kinds, random) the published (y, root, nullifier, x, e) are compared element-wise between the independent formulas, zerokit's native computation, positions 1..5 of the graph witness and rln.wasm; bytes 128..288 of generated messages are compared for a sample.",
+        "note": "Trusted: rln.wasm under node as the circuit, reference Poseidon. Sampled input space.",
+    },
+    "C05": {
+        "level": "exploration",
+        "technique": "differential monitor against the reference circom witness generator (rln.wasm under node): full 5844-vector digest equality, shuffled input order, repeated evaluation",
+        "text": "Thousands of 46-element assignments (every input position at every limb/modulus boundary value, ids around each power of two, limits incl. >2^16 corner, bit patterns, random) are run through rln.wasm; for those it accepts, SHA-256 of zerokit's complete witness must equal the reference's, with named inputs supplied in shuffled order and re-evaluated in canonical order; on mismatch the first differing position is located.",
+        "note": "Trusted: rln.wasm + node's WebAssembly engine; SHA-256. Rejected assignments are out of the quantifier (counted).",
+    },
+    "C09": {
+        "level": "exploration",
+        "technique": "differential monitor vs from-spec Poseidon (own Grain LFSR constants) and Keccak-256, in-process (Rust) and offline over the recorded log (pure Python); first-use race of 16 threads",
+        "text": "poseidon_hash (arity 1..8, every boundary value in every position, equal elements, random) and hash_to_field (every length 0..300, block boundaries, 64 kB, 1 MB, fills, random) through typed, byte-level and FFI entry points are compared with independent implementations written from the specifications and anchored on circomlib/Keccak vectors; a recorded sample is re-checked offline by a second, pure-Python implementation; 16 threads race the lazy initialisation in a fresh process and hash concurrently.",
+        "note": "Trusted: the two reference implementations and their anchors; arkworks field arithmetic (shared by the Rust reference, not by the Python one).",
+    },
+    "C10": {
+        "level": "exploration",
+        "technique": "round-trip monitor + byte-for-byte comparison with an independent encoder/decoder; truncation/extension sweep of witness encodings",
+        "text": "Every codec pair is exercised on boundary and random values (Fr incl. leading-zero encodings, vectors of length 0..1000, byte vectors to 1 MB, usize at 2^32/2^63 boundaries, witnesses of several depths, proof values, identity tuples, JSON forms); bytes are compared with an encoder written from the documented layouts; outputs of a live instance are decoded by the independent decoder; every truncation length and 1..40 trailing bytes of witness encodings must not decode.",
+        "note": "Trusted: transcription of the documented layouts. A panic on a truncated witness counts as 'did not succeed' (crash-freedom is C12/C13).",
+    },
+    "C14": {
+        "level": "exploration",
+        "technique": "relation monitor (reference Poseidon) + independent re-derivation of seeded identities (Keccak-256/ChaCha20/rejection sampling) + cross-thread/process/entry-point equality + distinctness sets",
+        "text": "Seeded identities for boundary seeds (empty, 1 byte, block boundaries, one-bit differences, trailing zero) and random seeds are compared with an independent derivation and the documented vectors, re-derived in 16 threads, 4 child processes, through RLN methods and the FFI; unseeded identities from all entry points are checked for the commitment relations, canonical encodings and distinctness.",
+        "note": "Trusted: reference derivation per DESIGN.md Appendix A; documented vectors = pinned values in rln/tests.",
+    },
+    "C20": {
+        "level": "exploration",
+        "technique": "random-program differential monitor: generated witness graphs evaluated by zerokit (serialize -> calc_witness, graph::evaluate) vs big-integer reference interpreter; storage round-trip equality",
+        "text": "Tens of thousands of random well-formed DAGs (all supported operators, 1..5000 nodes, repeated outputs, arbitrary input layouts, three node layouts incl. scattered Input nodes) are serialised, deserialised (equality) and evaluated through both paths on boundary-heavy and random assignments with shuffled named inputs; outputs are compared with a node-by-node reference interpretation; divergences are localised to the first differing node.",
+        "note": "Trusted: circomref semantics (shared with C19). Graphs referencing undeclared input positions are not generated (undefined by the statement).",
+    },
     "C19": {
         "level": "exploration",
         "technique": "differential runtime monitor: both graph evaluators vs big-integer reference of circom semantics over the full boundary grid (all pairs) + random operands, panics caught",
